@@ -16,6 +16,7 @@ import (
 	"testing"
 	"unsafe"
 
+	"github.com/slackhq/nebula/overlay/batch"
 	"github.com/slackhq/nebula/udp"
 	"golang.org/x/sys/unix"
 	"verifharness/hlib"
@@ -183,7 +184,11 @@ func gen(r *hlib.Rand, n int, tier, profile string, emit func(string, ...any)) {
 		for j := hlib.Pick(r, 0, 1, 2, 3, 5, 8, 12); j > 0; j-- {
 			script = append(script, genOutcome(r))
 		}
-		emit("wb %d %s %s %d %s %s %s", scratch, hlib.B(isV4), hlib.B(gso), maxSeg, dsts, pktsText(ps), scriptText(script))
+		op := "wb"
+		if r.Chance(1, 3) {
+			op = "wbq"
+		}
+		emit("%s %d %s %s %d %s %s %s", op, scratch, hlib.B(isV4), hlib.B(gso), maxSeg, dsts, pktsText(ps), scriptText(script))
 	}
 }
 
@@ -215,7 +220,7 @@ func newExec(t *testing.T) func([]string) string {
 	logger := slog.New(slog.NewTextHandler(io.Discard, nil))
 	var slab []byte
 	return func(a []string) string {
-		if a[0] != "wb" || len(a) != 8 {
+		if (a[0] != "wb" && a[0] != "wbq") || len(a) != 8 {
 			return "bad-op"
 		}
 		scratch, isV4, gso, maxSeg := hlib.Atoi(a[1]), a[2] == "1", a[3] == "1", hlib.Atoi(a[4])
@@ -244,12 +249,12 @@ func newExec(t *testing.T) func([]string) string {
 		}
 		bufs := make([][]byte, len(lens))
 		addrs := make([]netip.AddrPort, len(lens))
-		offIdx := map[uintptr]int{}
+		ptrIdx := map[uintptr]int{} // address of the first byte of a (non-empty) packet -> its index
 		off := 0
 		for i, ln := range lens {
 			bufs[i] = slab[off : off+ln : off+ln]
 			if ln > 0 {
-				offIdx[uintptr(off)] = i
+				ptrIdx[uintptr(unsafe.Pointer(&bufs[i][0]))] = i
 			}
 			off += ln
 			addrs[i] = dsts[dIdx[i]]
@@ -290,8 +295,7 @@ func newExec(t *testing.T) func([]string) string {
 						consecutive = false
 						continue
 					}
-					o := uintptr(unsafe.Pointer(b)) - uintptr(unsafe.Pointer(&slab[0]))
-					ix, ok := offIdx[o]
+					ix, ok := ptrIdx[uintptr(unsafe.Pointer(b))]
 					if !ok || ilens[j] != lens[ix] {
 						idxs = append(idxs, "?")
 						consecutive = false
@@ -348,7 +352,28 @@ func newExec(t *testing.T) func([]string) string {
 			}
 			return o.sent, &net.OpError{Op: "sendmmsg", Err: unix.ENOBUFS}
 		})
-		written, err := w.WriteBatch(bufs, addrs)
+		var written int
+		var err error
+		if a[0] == "wbq" {
+			// the production path: packets are reserved from the SendBatch arena, committed, and flushed
+			sb := batch.NewSendBatch(w, hlib.Atoi(a[1]), 64)
+			for i, ln := range lens {
+				b := sb.Reserve(ln)
+				if ln > 0 {
+					ptrIdx[uintptr(unsafe.Pointer(&b[0]))] = i
+				}
+				sb.Commit(b, addrs[i])
+			}
+			if sb.Len() != len(lens) {
+				return "sendbatch-len-mismatch"
+			}
+			written, err = sb.Flush()
+			if sb.Len() != 0 {
+				return "sendbatch-not-drained"
+			}
+		} else {
+			written, err = w.WriteBatch(bufs, addrs)
+		}
 		out := fmt.Sprintf("w=%d e=%s g=%s", written, hlib.B(err != nil), hlib.B(w.GSOSupported()))
 		for _, c := range calls {
 			out += " | " + c
